@@ -4,6 +4,7 @@ From ZV Require Import Prelude GoSem Abi VmReceive VmReceiveProofs Emb EmbProofs
 From ZV Require Import Liquidity LiquidityProofs Bridge BridgeProofs LockTermsProofs.
 From ZV.gen Require Import Consts Pure PureRelease.
 From ZV Require Import ReleaseSource.
+From ZV Require Import EmbSource.
 Open Scope Z_scope.
 
 (* ---- backing: for every history (queue) of calls processed by generateEmbeddedReceive - applied or refunded -
@@ -474,3 +475,35 @@ Example C10_minimum_lock_conditions_example :
               c_StakeMinAmount := 100000000; c_StakeTimeMin := 30; c_StakeTimeMax := 360; c_StakeTimeUnit := 30; c_TokenIssueAmount := 100000000 |} in
   - two63 <= e_now e /\ e_now e + c_StakeTimeMax e < two63 /\ 0 <= c_StakeTimeMin e.
 Proof. cbv. repeat split; discriminate. Qed.
+
+(* the hand model's stake cancel (Emb.v: the model of the backing theorems over all queues, tied to the real node by
+   differential evaluation) IS the translated source: same payout, same refusals, same written entry *)
+Theorem C10_cancel_stake_is_the_source : forall (num : bytes -> Z) (e : env) (a : cacct sstore) (s : send),
+  match cancel_stake_validate s with
+  | VErr c =>
+      cancel_stake_receive e a s = MErr c /\
+      (c <> 0 -> forall rt amt u g f exp now sv own,
+         CancelStake_receive rt amt c u g f exp now sv own = GoSem.Ok (nil, c, rt, amt, None))
+  | VPanic => cancel_stake_receive e a s = MPanic
+  | VOk id =>
+      match tget (a_store a) (s_from s ++ id) with
+      | None =>
+          cancel_stake_receive e a s = MErr E_nonexistent /\
+          forall rt amt f exp now sv own,
+            CancelStake_receive rt amt 0 0 Err_constants_ErrDataNonExistent f exp now sv own =
+            GoSem.Ok (nil, Err_constants_ErrDataNonExistent, rt, amt, None)
+      | Some ent =>
+          let src := CancelStake_receive (k_revoke ent) (k_amount ent) 0 0 0 0 (k_exp ent) (e_now e) 0 (num (s_from s)) in
+          if e_now e <? k_exp ent then
+            cancel_stake_receive e a s = MErr E_revoke_not_due /\
+            src = GoSem.Ok (nil, Err_constants_RevokeNotDue, k_revoke ent, k_amount ent, None)
+          else
+            exists a',
+              cancel_stake_receive e a s =
+                MOk a' [{| d_to := s_from s; d_amount := k_amount ent; d_zts := ZtsZnn; d_data := [] |}] /\
+              src = GoSem.Ok ([(num (s_from s), k_amount ent, ZnnTokenStandard)], 0, e_now e, 0, Some 1) /\
+              (exists ent', tget (a_store a') (s_from s ++ id) = Some ent' /\
+                 k_amount ent' = 0 /\ k_revoke ent' = e_now e /\ k_exp ent' = k_exp ent)
+      end
+  end.
+Proof. exact cancel_stake_is_source. Qed.
